@@ -80,7 +80,7 @@ def main():
         roots = sorted(set(h['fn'] for hs in REGISTRY.values() for h in hs if h['unit'] == uname))
         return pipeline.build_unit(uname, os.path.join(VERIF, u['cpp']), roots, defines=u.get('defines', ()),
                                    sessions=u.get('sessions', 2), cuts=u.get('cuts', ()), inline_all=u.get('inline_all', False),
-                                   cdefs=u.get('cdefs', ()))
+                                   cdefs=u.get('cdefs', ()), all_hooks=u.get('all_hooks', False))
     with ThreadPoolExecutor(max_workers=a.jobs) as ex:
         futs = {ex.submit(build, n): n for n in need}
         for n in need:
